@@ -124,11 +124,47 @@ func canMatchNothing(n node, seen map[node]bool) bool {
 		case groupMatchZeroOrOne, groupMatchZeroOrMore:
 			return true
 		case groupMatchNonEmpty:
-			return false
+			// "!" is satisfied by values, not by consumed tokens.
+			return yieldsValuesWithoutConsuming(n.expr, seen)
 		}
 		return canMatchNothing(n.expr, seen)
 	case *lookaheadGroup:
 		return true
+	}
+	return false
+}
+
+// yieldsValuesWithoutConsuming reports whether n can succeed without consuming a token and still return
+// values to its parent, which is what satisfies a non-empty group: captures and structs do so even when
+// what they wrap matched nothing.
+func yieldsValuesWithoutConsuming(n node, seen map[node]bool) bool {
+	switch n := n.(type) {
+	case *strct, *union:
+		return canMatchNothing(n, seen)
+	case *capture:
+		return canMatchNothing(n.node, seen)
+	case *disjunction:
+		for _, child := range n.nodes {
+			if yieldsValuesWithoutConsuming(child, seen) {
+				return true
+			}
+		}
+	case *sequence:
+		yields := false
+		for ; n != nil; n = n.next {
+			if !canMatchNothing(n.node, seen) {
+				return false
+			}
+			yields = yields || yieldsValuesWithoutConsuming(n.node, seen)
+		}
+		return yields
+	case *group:
+		switch n.mode {
+		case groupMatchZeroOrMore, groupMatchOneOrMore:
+			// A repetition whose body matches nothing never succeeds: it hits MaxIterations.
+			return false
+		}
+		return yieldsValuesWithoutConsuming(n.expr, seen)
 	}
 	return false
 }
